@@ -4,7 +4,7 @@
     lemma is decided by computation and stops checking when the source
     changes. *)
 From Coq Require Import List NArith ZArith String Bool.
-From Verif Require Import Lib.Utf8 Jsonx.GenTypes Gen.JsonxConsts Jsonx.Lex Jsonx.Tok Jsonx.Parse.
+From Verif Require Import Lib.Utf8 Jsonx.GenTypes Gen.JsonxConsts Gen.JsonxOwn Jsonx.Own Jsonx.Lex Jsonx.Tok Jsonx.Parse.
 Import ListNotations.
 Local Open Scope string_scope.
 
@@ -174,3 +174,29 @@ Lemma gen_semi_operator_agree :
   | _ => false
   end = true.
 Proof. vm_compute. reflexivity. Qed.
+
+(** Ownership of results (gen/jsonx_own.go, Gen/JsonxOwn.v): every function
+    of jsonx / lexing / strtoken with a []byte result returns nil, a buffer
+    made in that very call, or what another such function returns; and no
+    package-level variable is or holds a buffer (sync.Pool, bytes.Buffer,
+    []byte, strings.Builder).  So the allocation policy of Jsonx/Own.v is
+    [Fresh], and the caller of Marshal / ToJSON owns what it was handed. *)
+Lemma gen_results_fresh : results_fresh gen_result_origins gen_pkg_buffers = true.
+Proof. vm_compute. reflexivity. Qed.
+
+Lemma gen_policy_fresh : policy_of gen_result_origins gen_pkg_buffers = Fresh.
+Proof. unfold policy_of. now rewrite gen_results_fresh. Qed.
+
+Lemma gen_result_functions_present :
+  forallb (fun f => existsb (fun fo => String.eqb (fst fo) f) gen_result_origins)
+          ["jsonx.Marshal"; "jsonx.ToJSON"; "jsonx.marshalValue"] = true.
+Proof. vm_compute. reflexivity. Qed.
+
+Lemma gen_results_owned (F : list N -> list N) h k :
+  read (run F (policy_of gen_result_origins gen_pkg_buffers) h) k = nth_error (spec F h) k.
+Proof. rewrite gen_policy_fresh. apply fresh_is_spec. Qed.
+
+Lemma gen_result_stable (F : list N -> list N) h1 i h2 :
+  forallb (fun e => negb (writes_to (ncalls h1) e)) h2 = true ->
+  read (run F (policy_of gen_result_origins gen_pkg_buffers) (h1 ++ ECall i :: h2)) (ncalls h1) = Some (F i).
+Proof. rewrite gen_policy_fresh. apply fresh_result_stable. Qed.
